@@ -148,7 +148,7 @@ def emit_tokens(label, pattern: str) -> list:
     """Tokens a task with this emit pattern makes visible (one per log/print/err step)."""
     out = []
     for i, step in enumerate(pattern.split('+')):
-        if step in ('log', 'warn', 'print', 'err', 'iprint', 'nprint', 'exc', 'wprint', 'eprint', 'rprint'):
+        if step in ('log', 'warn', 'print', 'err', 'iprint', 'nprint', 'exc', 'wprint', 'eprint', 'rprint', 'dlog'):
             out.append(f'<{label}.{i}>')
         elif step.startswith('burst'):
             out.extend(f'<{label}.{i}.{j}>' for j in range(int(step[5:])))
@@ -167,6 +167,10 @@ def _emit(task):
             logger.info(f'log{tok}')
         elif step == 'warn':
             logger.warning(f'warn{tok}')
+        elif step == 'dlog':                        # the task lowers the logger's level itself and logs below the caller's level
+            import logging
+            logger.setLevel(logging.DEBUG)
+            logger.debug(f'dbg{tok}')
         elif step == 'print':
             print(f'out{tok}')
         elif step == 'exc':                         # a record carrying a traceback
